@@ -25,12 +25,12 @@ wrap position of the `InputPair`, distance parameters, distance cache and histor
   is the decoder's position: dictionary tail + all earlier input.
 * `queue_growth_lossless` — the growing queue hands the callback exactly what was pushed, in order.
 NOT proved: that the encoder's commands decode to the input (`PayloadOK`, the payload hypothesis — judged on
-the real code by the independent IR replay of engine `recoder` on every run); `slices_tile` across meta-blocks
-(which `InputPair` ranges `encode_data` hands over) belongs to the stream machine (C01/C20) and is exercised by
-the same oracle (concatenation of the slices == input).
+the real code by the independent IR replay of engine `recoder` on every run).  `slices_tile` (end of this file) is
+proved on top of the stream-machine model of C01/C20 relative to a small callback-invocation interface.
 -/
 import BV.Lemmas.RecoderSim
 import BV.Lemmas.RecoderPos
+import BV.Lemmas.RecoderSlices
 import BV.Props.C18
 
 namespace BV.Props.C14
@@ -276,6 +276,47 @@ theorem init_commands_are_wf (p nd dc : Nat) (hp : p ≤ 3) (hnd : nd ≤ 120) (
     rw [hm, hdv]
     exact ⟨e1, by omega⟩
 
+
+/-! ### `slices_tile` (on top of the stream machine of C01 / C20) -/
+
+section Slices
+open BV.Slices BV.Stream
+
+/-- **exactly one slice per input range on every path of `WriteMetaBlockInternal`**: not compressible
+(`store_uncompressed_meta_block`, logged), compressed (logged by `store_meta_block*`), and compressed-then-stored-raw
+(the fallback passes `suppress_meta_block_logging = true`): the logged list is `[(lf, hi)]` in all of them -/
+theorem one_slice_per_range (lf hi : Nat) (shouldCompress fallback : Bool) (h : lf < hi) :
+    wmbLogs lf hi shouldCompress fallback = [(lf, hi)] := wmb_logs_once lf hi shouldCompress fallback h
+
+/-- **one `encode_data` invocation** hands over consecutive non-empty ranges from `last_flush_pos_` before to
+`last_flush_pos_` after (catable 2-byte prelude first, then the meta-block) -/
+theorem slices_of_one_invocation {o : Oracle} {sc fb : Bool} {s s' : Stream.St} {site : Nat} {il ff : Bool} {req : Req}
+    (hI : Inv s) (hq : 2 ≤ s.params.quality) (h : encodeData o s site il ff = .ok (s', true, req)) :
+    Chain (loggedSlices o sc fb s site il ff) s.lastFlushPos s'.lastFlushPos := logged_chain hI hq h
+
+/-- **one `compress_stream` call** (PROCESS / FLUSH / FINISH on the general path) extends a history by exactly the
+slices the modelled loop logs: the loop of `BV.Stream.slowLoop` is an instance of the interface `Hist` -/
+theorem compress_stream_call_is_history {o : Oracle} {sc fb : Bool} {op : Nat} {c0 : SState} {n total fuel : Nat}
+    {s0 s s' : Stream.St} {sl : List Slice} {io io' : Io} {r : Bool}
+    (hH : Hist o s0 sl s) (hP : SlowInv op c0 n total s io) (hq : 2 ≤ s.params.quality)
+    (h : slowLoop o op fuel s io = .ok (s', io', r)) :
+    Hist o s0 (sl ++ slowLoopSlices o sc fb op fuel s io) s' ∧ s'.params.quality = s.params.quality :=
+  slowLoop_hist fuel s0 s s' sl io io' r hH hP hq h
+
+/-- **`slices_tile`** — see `BV.Slices.slices_tile`: over a whole history the ranges handed to the callback are
+consecutive, non-empty, and once `last_flush_pos_ = input_pos_` (after FLUSH / FINISH) they cover exactly the input fed
+since the start: nothing twice (also not on the stored fallback), nothing skipped (also not the catable prelude). -/
+theorem slices_tile {o : Oracle} {s0 s : Stream.St} {sl : List Slice} (input : Stream.Bytes)
+    (h : Hist o s0 sl s) (hflushed : s.lastFlushPos = s.inputPos) :
+    Chain sl s0.lastFlushPos s.inputPos ∧
+    cover input sl = (input.drop s0.lastFlushPos).take (s.inputPos - s0.lastFlushPos) :=
+  BV.Slices.slices_tile input h hflushed
+
+/-- non-vacuity: the catable prelude followed by the rest of a 10-byte input -/
+example : Chain [(0, 2), (2, 10)] 0 10 := ⟨rfl, by decide, rfl, by decide, rfl⟩
+example : cover [10, 11, 12, 13, 14, 15, 16, 17, 18, 19] [(0, 2), (2, 10)] = [10, 11, 12, 13, 14, 15, 16, 17, 18, 19] := by decide
+
+end Slices
 
 /-! ### non-vacuity: a concrete meta-block that wraps the ring buffer inside its first literal run -/
 
